@@ -219,6 +219,65 @@ type c18Case struct {
 	Now      c18Time
 	Earliest bool
 	Mut      c18Mut
+	// Stack: 0 plain database; 1 database stacked (WithStackedBackstore) over
+	// it with an empty top layer; 2 the top layer holds revision 1 of the
+	// signing key's account-key ending the key's validity at since+2y; 3 the
+	// top layer holds revision 1 of it that adds signing constraints.  2/3
+	// apply to keys registered in the backstore only (else as 1).
+	Stack int
+}
+
+var c18Stackable = map[int][2]string{1: {"canonical", "store"}, 2: {"other-brand", "default"}, 3: {"canonical", "window"}, 4: {"canonical", "constrained"}, 7: {"other-brand", "window"}}
+
+// c18EffFacts: what the newest account-key revision the database can find says
+// about the signing key of the case.
+func c18EffFacts(c *c18Case) c18KeyFacts {
+	k := c18Signers[c.Signer].key
+	f := c18Facts[k]
+	if _, ok := c18Stackable[k]; !ok {
+		return f
+	}
+	switch c.Stack {
+	case 2:
+		f.until = f.since.AddDate(2, 0, 0)
+	case 3:
+		f.constrained = true
+	}
+	return f
+}
+
+var c18Constraints = []interface{}{
+	map[string]interface{}{"headers": map[string]interface{}{"type": "test-only", "marker": "ok-[0-9]+"}},
+	map[string]interface{}{"headers": map[string]interface{}{"type": "test-only-2", "pk1": "fixed"}},
+}
+
+var c18Rev1Cache = map[[2]int]asserts.Assertion{}
+
+// c18StackedDB applies c.Stack to a fresh universe database.
+func c18StackedDB(u *c18Universe, c *c18Case) *asserts.Database {
+	db := u.newDB()
+	if c.Stack == 0 {
+		return db
+	}
+	top := asserts.NewMemoryBackstore()
+	k := c18Signers[c.Signer].key
+	if who, ok := c18Stackable[k]; ok && (c.Stack == 2 || c.Stack == 3) {
+		ak := c18Rev1Cache[[2]int{k, c.Stack}]
+		if ak == nil {
+			f := c18EffFacts(c)
+			extra := map[string]interface{}{"revision": "1"}
+			if f.constrained {
+				extra["format"] = "1"
+				extra["constraints"] = c18Constraints
+			}
+			ak = vuAccountKey("canonical", who[0], who[1], u.keys[k], f.since, f.until, extra, u.keys[0])
+			c18Rev1Cache[[2]int{k, c.Stack}] = ak
+		}
+		if err := top.Put(asserts.AccountKeyType, ak); err != nil {
+			panic(fmt.Sprintf("HARNESS: top layer put: %v", err))
+		}
+	}
+	return db.WithStackedBackstore(top)
 }
 
 func c18Resolve(f c18KeyFacts, t c18Time) time.Time {
@@ -245,7 +304,7 @@ func c18InWindow(f c18KeyFacts, t time.Time) bool {
 // != 0 gives the sibling used by swap-sig (different identity).
 func c18Headers(c *c18Case, variant int) (*asserts.AssertionType, map[string]interface{}, []byte) {
 	s := c18Signers[c.Signer]
-	f := c18Facts[s.key]
+	f := c18EffFacts(c)
 	name := c.Name
 	if variant != 0 {
 		name += "x"
@@ -383,7 +442,7 @@ func (d c18Defects) String() string {
 
 func c18Judge(c *c18Case) c18Defects {
 	s := c18Signers[c.Signer]
-	f := c18Facts[s.key]
+	f := c18EffFacts(c)
 	var d c18Defects
 	if !f.known {
 		d.unknownKey = true
@@ -660,7 +719,7 @@ func c18Run(c c18Case) (verifkit.Outcome, error) {
 		return o, verifkit.Violatef("correctly signed founding assertion of the signing universe is not accepted: %v", c18UErr)
 	}
 	s := c18Signers[c.Signer]
-	f := c18Facts[s.key]
+	f := c18EffFacts(&c)
 	key := u.keys[s.key]
 
 	typ, h, body := c18Headers(&c, 0)
@@ -679,7 +738,13 @@ func c18Run(c c18Case) (verifkit.Outcome, error) {
 
 	defects := c18Judge(&c)
 	now := c18Resolve(f, c.Now)
-	db := u.newDB()
+	db := c18StackedDB(u, &c)
+	if c.Stack != 0 {
+		o.Labels = append(o.Labels, "stacked-database")
+		if _, ok := c18Stackable[s.key]; ok && c.Stack >= 2 {
+			o.Labels = append(o.Labels, "stacked-newer-account-key")
+		}
+	}
 	if c.Earliest {
 		// the system clock must not matter in this mode: park it where every
 		// bounded key is long expired
@@ -881,7 +946,7 @@ func c18Windowed(t *rapid.T, c *c18Case) {
 // c18BadTime picks a position outside the signer key's validity: before
 // since, or (bounded keys only) at/after until.
 func c18BadTime(t *rapid.T, c *c18Case, early, late []c18Time, lateOnly bool) c18Time {
-	bounded := !c18Facts[c18Signers[c.Signer].key].until.IsZero()
+	bounded := !c18EffFacts(c).until.IsZero()
 	if bounded && (lateOnly || rapid.Bool().Draw(t, "late")) {
 		return rapid.SampledFrom(late).Draw(t, "latepos")
 	}
@@ -892,6 +957,7 @@ func c18Gen(t *rapid.T) c18Case {
 	var c c18Case
 	cat := rapid.SampledFrom([]string{"none", "byte", "byte", "byte", "byte", "byte", "byte", "struct", "struct", "struct", "struct", "struct", "struct"}).Draw(t, "cat")
 	c.Kind = rapid.SampledFrom([]int{0, 0, 0, 1, 1, 2, 3, 4, 5, 6, 7, 7, 8}).Draw(t, "kind")
+	c.Stack = rapid.SampledFrom([]int{0, 0, 0, 0, 1, 2, 2, 3}).Draw(t, "stack")
 	c.Name = rapid.StringMatching(`[a-z0-9]{1,8}`).Draw(t, "name")
 	c.Rev = rapid.SampledFrom([]int{0, 0, 1, 2, 7, 10}).Draw(t, "rev")
 	c.Body = rapid.SampledFrom([]string{"", "", "body", "two\nlines", "BODY-ü\n"}).Draw(t, "body")
@@ -952,7 +1018,7 @@ func c18Gen(t *rapid.T) c18Case {
 			}
 		case "clock":
 			c18Windowed(t, &c)
-			if c.Earliest && c18Facts[c18Signers[c.Signer].key].until.IsZero() {
+			if c.Earliest && c18EffFacts(&c).until.IsZero() {
 				// only an end of validity can be missed in this mode
 				c.Signer = 3
 			}
